@@ -432,7 +432,7 @@ pub fn run(ctx: &Ctx) -> Finish {
     let mut fs = family_medium();
     fs.extend(gen_polynomial(&[vec![1, 2, 9], vec![9, 9], vec![7, 9, 1], vec![2]], &[1.0, -0.5], 2));
     if !t {
-        fs = fs.into_iter().step_by(5).collect();
+        fs = fs.into_iter().step_by(2).collect();
     }
     let keys = [1u64, 2, 7, 9];
     let pools: Vec<Vec<Option<FnRep>>> = keys.iter().map(|k| replacement_pool(*k)).collect();
